@@ -273,6 +273,155 @@ theorem runX_post : ∀ (ops : List (XOp × Nat)) {st st' : State} {qs : List Sp
       have p2 := runX_post ops p1.1 p1.2.1 h2
       exact p1.trans (p1.2.2.1 ▸ p2)
 
+/-! ### capacity of mixed histories -/
+
+theorem prependPtr_cap {v : Nat} {b : Buf} {L : Ledger} (hb : BInv v b) (hL : LiveIn b L) (hbd : Bounded L) (src len k : Nat)
+    (h : src + len ≤ b.store.mem.length) :
+    OkM (b.prependPtr src len k) L (fun b' _ => b'.cap ≤ max b.cap (max (len + (b.e - b.s)) k)) := by
+  unfold LiveIn Bounded at *
+  obtain ⟨st, s, e, cap⟩ := b
+  cases st with
+  | own id m =>
+    simp only [BInv] at hb
+    simp only [Store.mem] at h
+    simp only [Buf.ownId, Option.some.injEq, forall_eq'] at hL
+    by_cases hs : len ≤ s
+    · obtain ⟨q, rfl⟩ : ∃ q, s = q + len := ⟨s - len, by omega⟩
+      simp only [Buf.prependPtr]
+      buf_wp
+      simp only [Nat.add_sub_cancel]
+      mem_finish
+    · simp only [Buf.prependPtr]
+      buf_wp
+      mem_finish
+  | att m => simp only [BInv] at hb; simp only [Store.mem] at h; simp only [Buf.prependPtr]; buf_wp; mem_finish
+  | dflt c => simp only [BInv] at hb; simp only [Store.mem, List.length_nil] at h; simp only [Buf.prependPtr]; buf_wp; mem_finish
+
+theorem assignPtr_cap {v : Nat} {b : Buf} {L : Ledger} (hb : BInv v b) (hL : LiveIn b L) (hbd : Bounded L) (src len k : Nat)
+    (h : src + len ≤ b.store.mem.length) :
+    OkM (b.assignPtr src len k) L (fun b' _ => b'.cap ≤ max b.cap (max len k)) := by
+  unfold LiveIn Bounded at *
+  obtain ⟨st, s, e, cap⟩ := b
+  cases st <;> simp only [BInv] at hb <;> simp only [Store.mem, List.length_nil] at h <;>
+    (try simp only [Buf.ownId, Option.some.injEq, forall_eq', reduceCtorEq, false_implies, implies_true] at hL) <;>
+    simp only [Buf.assignPtr] <;> buf_wp <;> mem_finish
+
+theorem appendPtr_cap {v : Nat} {b : Buf} {L : Ledger} (hb : BInv v b) (hL : LiveIn b L) (hbd : Bounded L) (src len k : Nat)
+    (h : src + len ≤ b.store.mem.length) :
+    OkM (b.appendPtr src len k) L (fun b' _ => b'.cap ≤ max b.cap (max ((b.e - b.s) + len) k)) := by
+  unfold LiveIn Bounded at *
+  obtain ⟨st, s, e, cap⟩ := b
+  cases st with
+  | own id m =>
+    simp only [BInv] at hb
+    simp only [Store.mem] at h
+    simp only [Buf.ownId, Option.some.injEq, forall_eq'] at hL
+    by_cases hc : src ≤ cap ∧ (src < s ∨ src + len > e)
+    · obtain ⟨n, rfl⟩ : ∃ n, e = s + n := ⟨e - s, by omega⟩
+      simp only [Buf.appendPtr, Buf.owning, hc, and_self, if_true]
+      simp only [Buf.append, okM_bind, okM_liftO, ok_ptrSub']
+      buf_wp
+      simp only [Nat.add_sub_cancel_left, ← Nat.add_assoc, Nat.add_sub_cancel, Nat.sub_zero]
+      mem_finish
+    · have hcase : (s ≤ src ∧ src + len ≤ e) ∨ (src = cap + 1 ∧ len = 0) := by omega
+      rcases hcase with ⟨h1, h2⟩ | ⟨rfl, rfl⟩
+      · obtain ⟨off, rfl⟩ : ∃ off, src = s + off := ⟨src - s, by omega⟩
+        obtain ⟨n, rfl⟩ : ∃ n, e = s + n := ⟨e - s, by omega⟩
+        have hin : s ≤ s + off ∧ s + off ≤ s + n := by omega
+        simp only [Buf.appendPtr, Buf.owning, hc, if_false, true_and, hin, and_self, if_true, okM_bind, okM_liftO, ok_ptrSub']
+        buf_wp
+        simp only [Nat.add_sub_cancel_left, ← Nat.add_assoc, Nat.add_sub_cancel]
+        mem_finish
+      · have hin : ¬ (s ≤ cap + 1 ∧ cap + 1 ≤ e) := by omega
+        simp only [Buf.appendPtr, Buf.owning, hc, if_false, true_and, hin, okM_bind, okM_liftO, ok_ptrSub']
+        buf_wp
+        mem_finish
+  | att m =>
+    simp only [BInv] at hb; simp only [Store.mem] at h
+    simp only [Buf.appendPtr, okM_bind, okM_liftO, ok_ptrSub']
+    buf_wp; mem_finish
+  | dflt c =>
+    simp only [BInv] at hb; simp only [Store.mem, List.length_nil] at h
+    simp only [Buf.appendPtr, okM_bind, okM_liftO, ok_ptrSub']
+    buf_wp; mem_finish
+
+namespace Spec
+
+/-- the size a mixed operation requests -/
+def demandX (qs : List Queue) : XOp → Nat
+  | .std op => demand qs op
+  | .raw (.prepend v _ _ len) => len + (get qs v).length
+  | .raw (.append v _ _ len) => (get qs v).length + len
+  | .raw (.assign _ _ _ len) => len
+
+def peakX (regs : List (List Byte)) : List Queue → List (XOp × Nat) → Nat
+  | _, [] => 0
+  | qs, (op, k) :: ops => max (max (demandX qs op) k) (peakX regs (stepX regs qs op) ops)
+
+end Spec
+
+theorem stepRaw_cap {st st' : State} {qs : List Spec.Queue} {N k : Nat} {r : RawOp} (hi : Inv st) (hr : Rel qs st)
+    (h : stepRaw st k r = some st') (hN : CapLe N st) : CapLe (max N (max (Spec.demandX qs (.raw r)) k)) st' := by
+  have hw := stepRaw_wf h
+  have len_of : ∀ {u : Nat} {b : Buf}, st.bufs[u]? = some b → (Spec.get qs u).length = b.e - b.s := by
+    intro u b hb
+    rw [(hr.2 u b hb).length, data_length (hi.1 u b hb)]
+  cases r with
+  | prepend v back fwd len =>
+    obtain ⟨b0, hb0, hfit⟩ := hw
+    refine upd_cap hi h hN (fun b hb hbi hl hbd => ?_)
+    rw [hb0] at hb; cases hb
+    have hfit' := hfit; unfold Buf.fits at hfit'; rw [store_len_eq] at hfit'
+    simp only [withPtr, hfit, if_true]
+    refine (prependPtr_cap hbi hl hbd _ len k hfit'.2).mono (fun b' _ hc => ?_)
+    have := len_of hb0
+    simp only [Spec.demandX]; omega
+  | append v back fwd len =>
+    obtain ⟨b0, hb0, hfit⟩ := hw
+    refine upd_cap hi h hN (fun b hb hbi hl hbd => ?_)
+    rw [hb0] at hb; cases hb
+    have hfit' := hfit; unfold Buf.fits at hfit'; rw [store_len_eq] at hfit'
+    simp only [withPtr, hfit, if_true]
+    refine (appendPtr_cap hbi hl hbd _ len k hfit'.2).mono (fun b' _ hc => ?_)
+    have := len_of hb0
+    simp only [Spec.demandX]; omega
+  | assign v back fwd len =>
+    obtain ⟨b0, hb0, hfit⟩ := hw
+    refine upd_cap hi h hN (fun b hb hbi hl hbd => ?_)
+    rw [hb0] at hb; cases hb
+    have hfit' := hfit; unfold Buf.fits at hfit'; rw [store_len_eq] at hfit'
+    simp only [withPtr, hfit, if_true]
+    refine (assignPtr_cap hbi hl hbd _ len k hfit'.2).mono (fun b' _ hc => ?_)
+    simp only [Spec.demandX]; omega
+
+theorem runX_cap : ∀ (ops : List (XOp × Nat)) {st st' : State} {qs : List Spec.Queue} {N : Nat}, Inv st → Rel qs st →
+    runX st ops = some st' → CapLe N st → CapLe (max N (Spec.peakX st.regs qs ops)) st'
+  | [], st, st', qs, N, hi, hr, h, hN => by
+    simp only [runX, Option.some.injEq] at h
+    subst h
+    intro u b hb
+    have := hN u b hb
+    simp only [Spec.peakX]
+    omega
+  | (op, k) :: ops, st, st', qs, N, hi, hr, h, hN => by
+    cases h1 : stepX st k op with
+    | none => simp [runX, h1] at h
+    | some st1 =>
+      have h2 : runX st1 ops = some st' := by simpa [runX, h1] using h
+      obtain ⟨st1', h1', p1⟩ := stepX_ok hi hr k op (stepX_wf h1)
+      rw [h1] at h1'
+      cases h1'
+      have c1 : CapLe (max N (max (Spec.demandX qs op) k)) st1 := by
+        cases op with
+        | std o => exact step_cap hi hr h1 hN
+        | raw r => exact stepRaw_cap hi hr h1 hN
+      have c2 := runX_cap ops p1.1 p1.2.1 h2 c1
+      rw [p1.2.2.1] at c2
+      intro u b hb
+      have := c2 u b hb
+      simp only [Spec.peakX]
+      omega
+
 /-- the terminator of an owning variable in any state satisfying the invariant -/
 theorem terminator_of_inv {st : State} (hi : Inv st) {v : Nat} {b : Buf} (hb : st.getBuf v = some b)
     (hown : b.owning = true) : Nstd.Buffer.terminator st v = some (some (some 0)) := by
